@@ -105,7 +105,7 @@ func (h *HistSys) Init(w *world.World) {
 
 func (h *HistSys) curReplicas(w *world.World) int {
 	switch h.Class.Kind {
-	case "sts", "stsmulti", "ststwin", "stspool":
+	case "sts", "stsmulti", "ststwin", "stspool", "stspfx":
 		return w.Replicas("StatefulSet", "ns", "a")
 	case "dp", "dppool":
 		return w.Replicas("Deployment", "ns", "d")
@@ -120,7 +120,7 @@ func (h *HistSys) Enabled(w *world.World) []Op {
 	for i := 0; i < h.NPods; i++ {
 		p := w.Pods[h.pod(i).Key()]
 		if p == nil {
-			if h.Ops["create"] && rep >= 0 && (i < rep || h.Class.Kind == "bare") {
+			if h.Ops["create"] && rep >= 0 && (i < rep || h.Class.Kind == "bare" || h.Class.Kind == "barepfx") {
 				ops = append(ops, Op{Kind: "create", A: i})
 			}
 			continue
@@ -179,7 +179,7 @@ func (h *HistSys) Enabled(w *world.World) []Op {
 	if h.Ops["resync"] {
 		ops = append(ops, Op{Kind: "resync"})
 	}
-	if h.Ops["scale"] && h.Class.Kind != "bare" {
+	if h.Ops["scale"] && h.Class.Kind != "bare" && h.Class.Kind != "barepfx" {
 		for n := 0; n <= h.NPods; n++ {
 			if n != rep {
 				ops = append(ops, Op{Kind: "scale", A: n})
